@@ -7,6 +7,7 @@
 #include <igris/event/safe_queue.h>
 #include <igris/osinter/wait.h>
 #include <igris/sync/syslock.h>
+#include <mutex>
 
 struct QItem
 {
@@ -21,6 +22,24 @@ extern "C"
     // save/restore window in the middle, then unwinding; the harness' owner record is updated through h_* hooks
     void prog_lock_round(int depth, int use_save, long *counter)
     {
+        if (use_save == 0 && depth == 2)
+        {
+            // the C++ wrappers: a syslock_guard object around a std::lock_guard<igris::syslock>
+            igris::syslock_guard g;
+            h_locked(1);
+            *counter = *counter + 1;
+            {
+                igris::syslock sl;
+                std::lock_guard<igris::syslock> lg(sl);
+                h_locked(2);
+                *counter = *counter + 1;
+                *counter = *counter + 1;
+                h_unlocking(2);
+            }
+            *counter = *counter + 1;
+            h_unlocking(1);
+            return;
+        }
         for (int d = 1; d <= depth; d++)
         {
             system_lock();
